@@ -5,12 +5,35 @@ The interleaving of OS threads cannot be controlled here, so this is a sampled r
 (no model run): N threads call client.send_packet at the same time on a loopback socket whose `send`/`sendmsg`
 accept only a few bytes per call and release the GIL after every call, with a 1 microsecond switch interval,
 so that an unprotected critical section would interleave almost surely.
-Lines: `sent s<i> <j> <outcome>`, `wire <hex>` (tcp) or `dgram <hex>`… (udp), `rx <hex>`…, `note contended`.
-No wall-clock criterion is used for the verdict: the reader stops as soon as everything expected has arrived and
-otherwise gives up after a very generous deadline, which is reported as an infrastructure error, not a violation.
+
+Since seeded change C12-m6 the senders are not alone on the client (format 2 of the thread cases):
+
+* `aux` threads call, in a loop and for as long as the senders run, the OTHER thread-safe methods of the same client,
+  i.e. everything public that takes the send lock or the receive lock: `is_closed()`, `get_local_address()`,
+  `get_remote_address()`, `fileno()`, the `client.socket` proxy (`fileno`, `getsockname`, `getpeername`, `getsockopt`,
+  `setsockopt`, `get_inheritable`, `repr`), `recv_packet(timeout=0 / 1ms)`, `iter_received_packets(timeout=0)`;
+* senders may use a check-then-send idiom (`if not client.is_closed(): client.send_packet(p)`, or an address / fileno
+  lookup before each send);
+* the socket really PARKS the sender in the middle of a packet, lock held, GIL released: at the send calls listed in
+  `parks` it sleeps `park_ms` after the partial write (and notes whether an auxiliary call was attempted in that window:
+  `note aux-window`), at the calls listed in `eagain` it raises BlockingIOError so that the transport goes through its
+  selector wait and retries (lock still held);
+* the peer may send packets of its own (`peer_packets`), which the `recv*` calls of the auxiliary threads pick up;
+* when all senders are back the main thread drains what the peer sent, calls `send_eof()` (TCP; the peer reads up to
+  EOF, so nothing is missed and nothing is waited for) and `close()`, and looks at `is_closed()` / `fileno()` after it.
+
+Every auxiliary call must succeed with the right answer (`TimeoutError` of a receive with a zero/short timeout is the
+expected answer when nothing is there); what the peer sent must come out of the receive calls exactly once, in order.
+
+Lines: `sent s<i> <j> <outcome>`, `aux <thread> <op> <distinct outcome>`, `final <step> <outcome>`, `wire <hex>` (tcp) or
+`dgram <hex>`… (udp), `rx <hex>`…, `arx <thread> <hex>`…, `note contended`, `note aux-window`.
+No wall-clock criterion is used for the verdict.  A thread that is not back after a very generous deadline makes the
+whole case run a second time: not back again = `hang …` (a verdict: the call never returns); back = infrastructure
+error, not a violation.
 """
 from __future__ import annotations
 
+import errno
 import socket
 import sys
 import threading
@@ -24,55 +47,150 @@ from easynetwork.clients.tcp import TCPNetworkClient
 from easynetwork.clients.udp import UDPNetworkClient
 from easynetwork.protocol import DatagramProtocol
 
-DEADLINE = 60.0
+DEADLINE = 30.0
+DRAIN_TIMEOUT = 5.0
+SENTINEL = b"\xff\x00END-OF-RUN\x00\xff"
+
+# every public thread-safe method of the blocking clients besides send_packet (send lock unless noted)
+AUX_OPS = ["is_closed", "local", "remote", "fileno", "sock.fileno", "sock.getsockname", "sock.getpeername",
+           "sock.getsockopt", "sock.setsockopt", "sock.get_inheritable", "sock.repr",
+           "recv0", "recv1", "iter0"]                 # the last three: receive lock
+RECV_OPS = ("recv0", "recv1", "iter0")
+IDIOMS = ["is_closed", "is_closed", "remote", "local", "fileno", "sock.getsockopt"]
+
+
+class _Hang(Exception):
+    def __init__(self, who: str) -> None:
+        super().__init__(who)
+        self.who = who
+
+
+class _State:
+    """what the socket wrapper and the threads share during one run"""
+
+    def __init__(self, case: dict, nthreads: int) -> None:
+        self.sizes: list[int] = case.get("sizes") or [1]
+        self.parks = set(case.get("parks") or [])
+        self.eagain = set(case.get("eagain") or [])
+        self.park_s = float(case.get("park_ms", 1)) / 1000.0
+        self.k = 0
+        self.started = [0] * nthreads         # auxiliary calls begun, per thread (single writer each)
+        self.incall = [False] * nthreads      # thread is inside an auxiliary call right now
+        self.aux_window = False               # an auxiliary call was attempted while a sender was parked mid-packet
+
+    def tick(self) -> int:
+        k = self.k
+        self.k = k + 1
+        return k
+
+    def park(self) -> None:
+        before = sum(self.started)
+        inside = any(self.incall)
+        time.sleep(self.park_s)
+        if inside or sum(self.started) > before or any(self.incall):
+            self.aux_window = True
 
 
 class PartialSocket(socket.socket):
-    """a real connected socket whose send/sendmsg accept at most `sizes[k]` bytes and then yield the GIL"""
+    """a real connected socket whose send/sendmsg accept at most `sizes[k]` bytes and then yield the GIL;
+    at the calls listed in the plan it parks (sleeps) after the partial write or pretends EAGAIN before it"""
 
-    sizes: list[int] = [1]
-    _k = 0
+    st: _State | None = None
 
-    def _take(self) -> int:
-        k = PartialSocket._k
-        PartialSocket._k = k + 1
-        return max(1, self.sizes[k % len(self.sizes)])
+    def _gate(self) -> int:
+        st = self.st
+        assert st is not None
+        k = st.tick()
+        if k in st.eagain:
+            raise BlockingIOError(errno.EAGAIN, "Resource temporarily unavailable (simulated)")
+        return k
+
+    def _after(self, k: int) -> None:
+        st = self.st
+        assert st is not None
+        if k in st.parks:
+            st.park()
+        else:
+            time.sleep(0)
+
+    def _size(self, k: int) -> int:
+        st = self.st
+        assert st is not None
+        return max(1, st.sizes[k % len(st.sizes)])
 
     def send(self, data, flags=0):  # type: ignore[override]
+        k = self._gate()
         mv = memoryview(data).cast("B")
-        n = super().send(mv[: self._take()], flags)
-        time.sleep(0)
+        n = super().send(mv[: self._size(k)], flags)
+        self._after(k)
         return n
 
     def sendmsg(self, buffers, *args):  # type: ignore[override]
+        k = self._gate()
         for b in buffers:
             mv = memoryview(b).cast("B")
             if len(mv):
-                n = super().send(mv[: self._take()])
-                time.sleep(0)
+                n = super().send(mv[: self._size(k)])
+                self._after(k)
                 return n
         return 0
 
 
-def _tcp_pair() -> tuple[socket.socket, socket.socket]:
+class SlowDgramSocket(socket.socket):
+    """a real connected UDP socket: datagrams go out whole, but at the calls listed in the plan the sender is parked
+    (lock held, GIL released) before or after the system call"""
+
+    st: _State | None = None
+
+    def send(self, data, flags=0):  # type: ignore[override]
+        st = self.st
+        if st is None:
+            return super().send(data, flags)
+        k = st.tick()
+        if k in st.eagain:
+            raise BlockingIOError(errno.EAGAIN, "Resource temporarily unavailable (simulated)")
+        if k in st.parks and k % 2:
+            st.park()
+        n = super().send(data, flags)
+        if k in st.parks and not k % 2:
+            st.park()
+        else:
+            time.sleep(0)
+        return n
+
+
+def _tcp_pair(st: _State) -> tuple[socket.socket, socket.socket]:
     srv = socket.socket(socket.AF_INET, socket.SOCK_STREAM)
-    srv.bind(("127.0.0.1", 0))
-    srv.listen(1)
-    c = socket.socket(socket.AF_INET, socket.SOCK_STREAM)
-    c.connect(srv.getsockname())
-    peer, _ = srv.accept()
-    srv.close()
+    try:
+        srv.bind(("127.0.0.1", 0))
+        srv.listen(1)
+        c = socket.socket(socket.AF_INET, socket.SOCK_STREAM)
+        try:
+            c.connect(srv.getsockname())
+            peer, _ = srv.accept()
+        except BaseException:
+            c.close()
+            raise
+    finally:
+        srv.close()
     ps = PartialSocket(fileno=c.detach())
+    ps.st = st
     return ps, peer
 
 
-def _udp_pair() -> tuple[socket.socket, socket.socket]:
-    a = socket.socket(socket.AF_INET, socket.SOCK_DGRAM)
+def _udp_pair(st: _State) -> tuple[socket.socket, socket.socket]:
+    a = SlowDgramSocket(socket.AF_INET, socket.SOCK_DGRAM)
     b = socket.socket(socket.AF_INET, socket.SOCK_DGRAM)
-    a.bind(("127.0.0.1", 0))
-    b.bind(("127.0.0.1", 0))
-    a.connect(b.getsockname())
-    b.connect(a.getsockname())
+    try:
+        a.bind(("127.0.0.1", 0))
+        b.bind(("127.0.0.1", 0))
+        a.connect(b.getsockname())
+        b.connect(a.getsockname())
+    except BaseException:
+        a.close()
+        b.close()
+        raise
+    a.st = st
     return a, b
 
 
@@ -81,116 +199,322 @@ def _tmo(s: dict, j: int):
     return ts[j] if ts and j < len(ts) else None
 
 
+def _idiom(s: dict, j: int) -> str | None:
+    xs = s.get("idioms")
+    return xs[j] if xs and j < len(xs) else None
+
+
+def _exc(e: BaseException) -> str:
+    msg = "-".join(str(e).split())[:60]
+    return R.exc_enum(e) + (":" + msg if msg else "")
+
+
+def _do_op(client: Any, op: str, truth: dict, spec: dict, sink: list[str]) -> str:
+    """one auxiliary call; the answer is checked against what the harness knows about the socket"""
+    try:
+        if op == "is_closed":
+            return str(client.is_closed())
+        if op == "local":
+            a = client.get_local_address()
+            return "ok" if tuple(a)[:2] == truth["local"] else f"wrong:{tuple(a)}"
+        if op == "remote":
+            a = client.get_remote_address()
+            return "ok" if tuple(a)[:2] == truth["remote"] else f"wrong:{tuple(a)}"
+        if op == "fileno":
+            v = client.fileno()
+            return "ok" if v == truth["fd"] else f"wrong:{v}"
+        if op == "sock.fileno":
+            v = client.socket.fileno()
+            return "ok" if v == truth["fd"] else f"wrong:{v}"
+        if op == "sock.getsockname":
+            v = client.socket.getsockname()
+            return "ok" if tuple(v)[:2] == truth["local"] else f"wrong:{v}"
+        if op == "sock.getpeername":
+            v = client.socket.getpeername()
+            return "ok" if tuple(v)[:2] == truth["remote"] else f"wrong:{v}"
+        if op == "sock.getsockopt":
+            v = client.socket.getsockopt(socket.SOL_SOCKET, socket.SO_TYPE)
+            return "ok" if v == truth["type"] else f"wrong:{v}"
+        if op == "sock.setsockopt":
+            client.socket.setsockopt(socket.SOL_SOCKET, socket.SO_REUSEADDR, 1)
+            return "ok"
+        if op == "sock.get_inheritable":
+            v = client.socket.get_inheritable()
+            return "ok" if v is False else f"wrong:{v}"
+        if op == "sock.repr":
+            v = repr(client.socket)
+            return "ok" if f"fd={truth['fd']}" in v else "wrong:" + "-".join(v.split())[:60]
+        if op in ("recv0", "recv1"):
+            try:
+                p = client.recv_packet(timeout=0 if op == "recv0" else 0.001)
+            except TimeoutError:
+                return "timeout"
+            sink.append(R.packet_hex(spec, p) if truth["tcp"] else _dgram_hex(spec, p))
+            return "pk"
+        if op == "iter0":
+            for p in client.iter_received_packets(timeout=0):
+                sink.append(R.packet_hex(spec, p) if truth["tcp"] else _dgram_hex(spec, p))
+            return "ok"
+        return f"unknown-op:{op}"
+    except Exception as e:
+        return _exc(e)
+
+
+def _dgram_hex(spec: dict, p: Any) -> str:
+    return R.packet_hex(spec, p)
+
+
+def _bounded(fn, what: str, deadline: float) -> Any:
+    """run one call of the final phase in its own thread: a lock left locked must not hang the harness"""
+    box: list[Any] = []
+
+    def run() -> None:
+        try:
+            box.append(("ok", fn()))
+        except Exception as e:
+            box.append(("exc", e))
+
+    t = threading.Thread(target=run, daemon=True)
+    t.start()
+    t.join(max(0.5, deadline - time.monotonic()))
+    if not box:
+        raise _Hang(what)
+    kind, v = box[0]
+    if kind == "exc":
+        raise v
+    return v
+
+
 def run_threads(case: dict) -> list[str]:
+    """`tries` (set by the shrinker only): the schedule of OS threads is sampled, so a shrunk case is given up to that
+    many samples; the first one the oracle objects to is the observation"""
+    lines: list[str] = []
+    for _ in range(max(1, int(case.get("tries", 1)))):
+        lines = _run_guarded(case)
+        if oracle(case, lines):
+            break
+    return lines
+
+
+def _run_guarded(case: dict) -> list[str]:
+    try:
+        return _run_once(case)
+    except _Hang as h1:
+        first = h1.who
+    try:
+        _run_once(case)
+    except _Hang as h2:
+        return [f"hang {h2.who}"]
+    raise core.InfraError(f"C12 thread stress run did not finish within the deadline ({first}); it did on the retry")
+
+
+def _run_once(case: dict) -> list[str]:
     spec = case["spec"]
     kind = case["target"]
+    tcp = kind == "tcp"
+    senders = case["senders"]
+    auxs = case.get("aux") or []
+    nthreads = len(senders) + len(auxs)
+    st = _State(case, nthreads)
     lines: list[str] = []
     lock = threading.Lock()
-    PartialSocket.sizes = case.get("sizes") or [1]
-    PartialSocket._k = 0
-    if kind == "tcp":
-        csock, peer = _tcp_pair()
-        client: Any = TCPNetworkClient(csock, R.build_protocol(spec))
-        expected = sum(len(R.expected_chunks(spec, h)) for s in case["senders"] for h in s["packets"])
+    if tcp:
+        csock, peer = _tcp_pair(st)
     else:
-        csock, peer = _udp_pair()
-        client = UDPNetworkClient(csock, DatagramProtocol(sers.build(spec)))
-        expected = sum(len(s["packets"]) for s in case["senders"])
-    # sends with a timeout may legitimately give up while waiting for the lock (then they put nothing on the wire):
-    # what the reader can expect for sure are the sends without a timeout
-    timed = any(t is not None for s in case["senders"] for t in s.get("timeouts", []))
-    if timed:
-        if kind == "tcp":
-            expected = sum(len(R.expected_chunks(spec, h)) for s in case["senders"]
-                           for j, h in enumerate(s["packets"]) if _tmo(s, j) is None)
+        csock, peer = _udp_pair(st)
+    try:
+        truth = {"local": csock.getsockname()[:2], "remote": csock.getpeername()[:2], "fd": csock.fileno(),
+                 "type": csock.getsockopt(socket.SOL_SOCKET, socket.SO_TYPE), "tcp": tcp}
+        if tcp:
+            client: Any = TCPNetworkClient(csock, R.build_protocol(spec))
         else:
-            expected = sum(1 for s in case["senders"] for j, _ in enumerate(s["packets"]) if _tmo(s, j) is None)
-    peer.settimeout(0.2)
+            client = UDPNetworkClient(csock, DatagramProtocol(sers.build(spec)))
+    except BaseException:
+        csock.close()
+        peer.close()
+        raise
+    ser = None if tcp else sers.build(spec)
+    peer_out: list[bytes] = []
+    for h in case.get("peer_packets") or []:
+        peer_out.append(R.expected_chunks(spec, h) if tcp else ser.serialize(R.packet_of(spec, h)))
     got = bytearray()
     dgrams: list[bytes] = []
     stop = threading.Event()
     senders_done = threading.Event()
+    peer_sent_all = threading.Event()
+    end_seen = threading.Event()
     t_end = time.monotonic() + DEADLINE
+    peer.settimeout(0.005)
 
-    def reader() -> None:
-        while not stop.is_set() and time.monotonic() < t_end:
-            if (len(got) if kind == "tcp" else len(dgrams)) >= expected and (not timed or senders_done.is_set()):
-                # everything expected is here; linger a moment for surplus bytes (a duplicated packet)
-                peer.settimeout(0.02)
+    def peer_loop() -> None:
+        pending = list(peer_out)
+        while not stop.is_set() and time.monotonic() < t_end + 5:
+            if pending:
                 try:
-                    d = peer.recv(65536)
-                except (TimeoutError, OSError):
-                    return
-                if not d:
-                    return
-                if kind == "tcp":
-                    got.extend(d)
-                else:
-                    dgrams.append(d)
-                continue
+                    peer.sendall(pending.pop(0)) if tcp else peer.send(pending.pop(0))
+                except OSError:
+                    pending.clear()
+            if not pending:
+                peer_sent_all.set()
             try:
                 d = peer.recv(65536)
             except TimeoutError:
                 continue
             except OSError:
-                return
-            if kind == "tcp":
+                if tcp:
+                    return
+                continue        # ICMP errors surface here for UDP: not an observable of this run
+            if tcp:
                 if not d:
+                    end_seen.set()
+                    while pending:          # (nobody reads them any more, but keep the flag truthful)
+                        pending.pop()
+                    peer_sent_all.set()
                     return
                 got.extend(d)
             else:
+                if d == SENTINEL:
+                    end_seen.set()
+                    peer_sent_all.set()
+                    return
                 dgrams.append(d)
 
-    barrier = threading.Barrier(len(case["senders"]))
+    barrier = threading.Barrier(nthreads)
+    aux_out: dict[str, dict[str, set[str]]] = {}
+    arx: dict[str, list[str]] = {}
+
+    def note(name: str, op: str, res: str) -> None:
+        aux_out.setdefault(name, {}).setdefault(op, set()).add(res)
 
     def sender(i: int, s: dict) -> None:
+        name = f"s{i}"
+        sink = arx.setdefault(name, [])
         try:
             barrier.wait(timeout=DEADLINE)
         except threading.BrokenBarrierError:
             return
         for j, h in enumerate(s["packets"]):
-            try:
-                t = _tmo(s, j)
-                if t is None:
-                    client.send_packet(R.packet_of(spec, h))
+            out = None
+            idi = _idiom(s, j)
+            if idi:
+                st.started[i] += 1
+                st.incall[i] = True
+                res = _do_op(client, idi, truth, spec, sink)
+                st.incall[i] = False
+                note(name, idi, res)
+                if idi == "is_closed" and res == "True":
+                    out = "skipped-closed"              # `if not client.is_closed(): client.send_packet(p)`
+                elif res not in _allowed(idi):
+                    out = "pre-" + res.split(":")[0]     # the statement in front of send_packet raised: no send
+            if out is None:
+                try:
+                    t = _tmo(s, j)
+                    if t is None:
+                        client.send_packet(R.packet_of(spec, h))
+                    else:
+                        client.send_packet(R.packet_of(spec, h), timeout=t)
+                except Exception as e:
+                    out = R.exc_enum(e)
+                    note(name, "send_packet", _exc(e))
                 else:
-                    client.send_packet(R.packet_of(spec, h), timeout=t)
-            except Exception as e:
-                out = R.exc_enum(e)
-            else:
-                out = "ok"
+                    out = "ok"
             with lock:
                 lines.append(f"sent s{i} {j} {out}")
 
+    def aux(i: int, a: dict) -> None:
+        slot = len(senders) + i
+        name = f"a{i}"
+        sink = arx.setdefault(name, [])
+        ops = a.get("ops") or ["is_closed"]
+        pace = a.get("pace", "spin")
+        try:
+            barrier.wait(timeout=DEADLINE)
+        except threading.BrokenBarrierError:
+            return
+        while True:
+            for op in ops:
+                st.started[slot] += 1
+                st.incall[slot] = True
+                res = _do_op(client, op, truth, spec, sink)
+                st.incall[slot] = False
+                note(name, op, res)
+                if pace == "yield":
+                    time.sleep(0)
+            if pace == "nap":
+                time.sleep(0.0002)
+            if senders_done.is_set() or stop.is_set() or time.monotonic() > t_end:
+                return
+
+    final: list[str] = []
+    hang: str | None = None
     old = sys.getswitchinterval()
     sys.setswitchinterval(1e-6)
     try:
-        rt = threading.Thread(target=reader, daemon=True)
+        rt = threading.Thread(target=peer_loop, daemon=True)
         rt.start()
-        ths = [threading.Thread(target=sender, args=(i, s), daemon=True) for i, s in enumerate(case["senders"])]
-        for t in ths:
+        ths = [(f"s{i}", threading.Thread(target=sender, args=(i, s), daemon=True)) for i, s in enumerate(senders)]
+        aths = [(f"a{i}", threading.Thread(target=aux, args=(i, a), daemon=True)) for i, a in enumerate(auxs)]
+        for _, t in ths + aths:
             t.start()
-        for t in ths:
-            t.join(DEADLINE)
-        alive = any(t.is_alive() for t in ths)
+        for _, t in ths:
+            t.join(max(0.5, t_end - time.monotonic()))
         senders_done.set()
-        rt.join(DEADLINE + 5)
-        stop.set()
+        for _, t in aths:
+            t.join(max(0.5, t_end - time.monotonic()))
+        stuck = [n for n, t in ths + aths if t.is_alive()]
+        if stuck:
+            raise _Hang(",".join(stuck))
+        sys.setswitchinterval(old)
+        # ---- final phase: what the peer sent comes out, send_eof / close work, the state is right afterwards
+        if peer_out:
+            # (a receive call that already failed explains a missing packet: no point in waiting for it)
+            rx_failed = any(res not in _allowed(op) for d in aux_out.values() for op, rs in d.items() if op in RECV_OPS
+                            for res in rs)
+            _drain(client, case, spec, truth, arx, peer_sent_all, final, t_end, 0.05 if rx_failed else DRAIN_TIMEOUT)
+        if tcp:
+            final.append("final send_eof " + _step(lambda: client.send_eof(), "final send_eof", t_end))
+            if final[-1].endswith(" ok") and not end_seen.wait(max(0.5, t_end - time.monotonic())):
+                raise _Hang("peer never saw the end of the stream although send_eof() returned")
+        else:
+            try:
+                socket.socket.send(csock, SENTINEL)
+            except OSError as e:
+                final.append("final sentinel " + _exc(e))
+            end_seen.wait(max(0.5, t_end - time.monotonic()))
+        final.append("final is_closed " + _step(lambda: str(client.is_closed()), "final is_closed", t_end))
+        final.append("final close " + _step(lambda: client.close(), "final close", t_end))
+        final.append("final is_closed_after " + _step(lambda: str(client.is_closed()), "final is_closed", t_end))
+        final.append("final fileno_after " + _step(lambda: str(client.fileno()), "final fileno", t_end))
+        if tcp and not end_seen.wait(max(0.5, t_end - time.monotonic())):
+            raise _Hang("peer never saw the end of the stream although the client is closed")
+        if not tcp and not end_seen.is_set():
+            raise _Hang("peer never saw the end-of-run datagram")
+        rt.join(max(0.5, t_end - time.monotonic()))
+    except _Hang as h:
+        hang = h.who
     finally:
         sys.setswitchinterval(old)
-    try:
-        client.close()
-    except Exception:
-        pass
-    peer.close()
-    if alive or (len(got) if kind == "tcp" else len(dgrams)) < expected and time.monotonic() >= t_end:
-        raise core.InfraError("C12 thread stress run did not finish within the deadline")
+        stop.set()
+        for s_ in (csock, peer):
+            try:
+                s_.close()
+            except OSError:
+                pass
+    if hang is not None:
+        raise _Hang(hang)
     lines.sort()
-    if kind == "tcp":
+    for name in sorted(aux_out):
+        for op in sorted(aux_out[name]):
+            for res in sorted(aux_out[name][op]):
+                if name.startswith("s") and op == "send_packet":
+                    lines.append(f"why {name} {res}")
+                else:
+                    lines.append(f"aux {name} {op} {res}")
+    lines.extend(final)
+    if tcp:
         lines.append(f"wire {core.hexs(bytes(got))}")
         rx = R.parse_wire(spec, bytes(got))
     else:
-        ser = sers.build(spec)
         rx = []
         for d in dgrams:
             lines.append(f"dgram {core.hexs(d)}")
@@ -199,22 +523,82 @@ def run_threads(case: dict) -> list[str]:
             except Exception as e:
                 rx.append(f"rx-err {type(e).__name__}")
     lines.extend(rx)
+    for name in sorted(arx):
+        for h in arx[name]:
+            lines.append(f"arx {name} {h or '-'}")
     # did the threads really overlap?  (a packet of one sender between two packets of another one)
     owner = {}
-    for i, s in enumerate(case["senders"]):
+    for i, s in enumerate(senders):
         for h in s["packets"]:
             owner.setdefault(h, i)
     seq = [owner.get(ln.split()[1]) for ln in rx if ln.startswith("rx ")]
     blocks = [o for k, o in enumerate(seq) if k == 0 or seq[k - 1] != o]
     if len(blocks) != len(set(blocks)):
         lines.append("note contended")
+    if st.aux_window:
+        lines.append("note aux-window")
     return lines
+
+
+def _step(fn, what: str, t_end: float) -> str:
+    try:
+        v = _bounded(fn, what, t_end)
+    except _Hang:
+        raise
+    except Exception as e:
+        return _exc(e)
+    return "ok" if v is None else str(v)
+
+
+def _drain(client: Any, case: dict, spec: dict, truth: dict, arx: dict, peer_sent_all: threading.Event,
+           final: list[str], t_end: float, patience: float) -> None:
+    """the packets of the peer that no auxiliary thread has picked up are already in the socket (loopback, the peer's
+    send calls have returned): the main thread takes them out, so that 'exactly once, in order' can be judged.
+    Waiting in vain for `patience` seconds is a deadline miss like any other (second run, then `hang`)"""
+    if not peer_sent_all.wait(max(0.5, t_end - time.monotonic())):
+        raise _Hang("peer could not send its packets")
+    want = len(case.get("peer_packets") or [])
+    sink = arx.setdefault("final", [])
+    res = "ok"
+    while sum(len(v) for v in arx.values()) < want:
+        try:
+            p = _bounded(lambda: client.recv_packet(timeout=patience), "final recv_packet", t_end)
+        except _Hang:
+            raise
+        except TimeoutError as e:
+            if patience >= DRAIN_TIMEOUT:
+                raise _Hang(f"final recv_packet: {want - sum(len(v) for v in arx.values())} packet(s) sent by the peer "
+                            "never came out of the receive calls") from None
+            res = _exc(e)
+            break
+        except Exception as e:
+            res = _exc(e)
+            break
+        sink.append(R.packet_hex(spec, p))
+    final.append(f"final drain {res}")
+
+
+def _allowed(op: str) -> set[str]:
+    if op == "is_closed":
+        return {"False"}
+    if op in ("recv0", "recv1"):
+        return {"timeout", "pk"}
+    return {"ok"}
+
+
+FINAL_EXPECTED = {"drain": "ok", "send_eof": "ok", "is_closed": "False", "close": "ok", "is_closed_after": "True",
+                  "fileno_after": "-1"}
 
 
 def oracle(case: dict, real: list[str]) -> str | None:
     from props import c12
 
+    hang = [ln for ln in real if ln.startswith("hang ")]
+    if hang:
+        return (f"deadlock: {hang[0][5:]} never came back (two runs in a row, deadline {DEADLINE:.0f} s each): a thread-safe "
+                "call that never returns does not succeed")
     out = c12.outcomes(real)
+    whys = [ln.split(None, 2)[1:] for ln in real if ln.startswith("why ")]
     parts: list[list[str]] = []
     for i, s in enumerate(case["senders"]):
         for j, h in enumerate(s["packets"]):
@@ -222,12 +606,32 @@ def oracle(case: dict, real: list[str]) -> str | None:
             if o == "timeout" and _tmo(s, j) is not None:
                 continue        # documented outcome of a send with a timeout under contention; it must have written nothing
             if o != "ok":
-                return f"send_packet call {j} of thread s{i}: {o}"
+                msg = [m for n, m in whys if n == f"s{i}" and o and m.startswith(o + ":")]
+                extra = f" ({msg[0]})" if msg else ""
+                return f"send_packet call {j} of thread s{i} failed: {o}{extra}"
         parts.append([h for j, h in enumerate(s["packets"]) if out.get((f"s{i}", j)) == "ok"])
+    for ln in real:
+        w = ln.split()
+        if w[0] == "aux" and w[3] not in _allowed(w[2]):
+            return f"auxiliary call {w[2]} of thread {w[1]} failed: {' '.join(w[3:])}"
     bad = [ln for ln in real if ln.startswith(("rx-err", "rx-left"))]
     if bad:
         return f"the peer cannot parse the stream: {bad[0]}"
     rx = [ln.split()[1] for ln in real if ln.startswith("rx ")]
     if not c12.is_merge(rx, parts):
         return f"peer received {rx[:8]}, not a merge of the per-thread sequences {parts}"
+    for ln in real:
+        w = ln.split()
+        if w[0] == "final" and (w[1] not in FINAL_EXPECTED or FINAL_EXPECTED[w[1]] != " ".join(w[2:])):
+            return f"after the senders were done, {w[1]} failed: {' '.join(w[2:])}"
+    sent_by_peer = [h or "-" for h in case.get("peer_packets") or []]
+    if sent_by_peer:
+        lists: dict[str, list[str]] = {}
+        for ln in real:
+            w = ln.split()
+            if w[0] == "arx":
+                lists.setdefault(w[1], []).append(w[2])
+        if not c12.is_merge(sent_by_peer, list(lists.values())):
+            return (f"the receive calls returned {lists}, the peer sent {sent_by_peer}: not every packet exactly once, "
+                    "in order")
     return None
